@@ -88,7 +88,7 @@ def run(chk, tier):
     # guarded halts and assertions (kept at the levels C01 runs) in their bodies
     for i in range(ne // 2):
         g = progen.ProgGen(((chk.seed + 9) % 1000003) * 100003 + i, emph=("call", "halt"))
-        g.feat |= {"fun", "halt", "assert", "tup", "coll", "list", "filt", "for", "adt", "kwd", "strop", "str", "where", "pfor"}
+        g.feat |= {"fun", "halt", "assert", "tup", "coll", "list", "filt", "for", "adt", "kwd", "strop", "str", "where", "pfor", "bits"}
         eprogs.append(g.program("k%d" % i))
     fame = progcheck.Family(chk, eprogs, "exceptions", workers=vlib.NCPU, timeout=1500)
     for s_, c in fame.status_count.items():
